@@ -187,3 +187,74 @@ func TopSrc(n *Node) string {
 	}
 	return "(if true " + n.Src() + " " + n.Src() + ")"
 }
+
+// StaticType derives the type a sub-expression evaluates to when it does not
+// fail, from the configuration's declarations. TAny when it cannot be told.
+func StaticType(cfg *CfgSpec, n *Node) Ty {
+	switch n.K {
+	case KLit:
+		switch n.Val.T {
+		case "b":
+			return TBool
+		case "i":
+			return TInt
+		case "s":
+			return TStr
+		case "il":
+			return TIntList
+		case "sl":
+			return TStrList
+		}
+		return TAny
+	case KConst:
+		if v, ok := cfg.Consts[n.Name]; ok {
+			return StaticType(cfg, Lit(v))
+		}
+		return TAny
+	case KVar:
+		for _, v := range cfg.Vars {
+			if v.Name == n.Name {
+				return v.Ty
+			}
+		}
+		return TAny
+	case KIf:
+		a, b := StaticType(cfg, n.Args[1]), StaticType(cfg, n.Args[2])
+		if a == b {
+			return a
+		}
+		return TAny
+	}
+	if c, ok := builtinNames[n.Name]; ok {
+		switch c {
+		case "add", "sub", "mul", "div", "mod", "date", "datetime", "t_date", "t_time", "td_date", "td_time", "version":
+			return TInt
+		}
+		return TBool
+	}
+	for _, o := range cfg.Ops {
+		if o.Name == n.Name {
+			return o.Ret
+		}
+	}
+	return TAny
+}
+
+// InDomain reports whether every operand of every and/or is statically
+// boolean: the domain on which the short-circuit semantics is documented.
+func InDomain(cfg *CfgSpec, n *Node) bool {
+	ok := true
+	n.Walk(func(x *Node) {
+		if x.IsAnd() || x.IsOr() {
+			if len(x.Args) < 2 {
+				ok = false
+			}
+			for _, a := range x.Args {
+				if StaticType(cfg, a) != TBool {
+					ok = false
+				}
+			}
+		}
+	})
+	return ok
+}
